@@ -223,11 +223,22 @@ def run_jobs(binary, jobs, shards=None, per_job_timeout=60.0, env=None, args=Non
 
 
 def load_known_findings():
-    path = os.path.join(VERIF, "known_findings.json")
+    """Parse /verif/known_findings.txt ("known:" lines only; "fixed:" lines suppress nothing)."""
+    path = os.path.join(VERIF, "known_findings.txt")
+    out = []
     if not os.path.exists(path):
-        return []
+        return out
     with open(path) as f:
-        return json.load(f).get("findings", [])
+        for line in f:
+            line = line.strip()
+            if not line.startswith("known:"):
+                continue
+            body = line[len("known:"):].strip()
+            head, _, what = body.partition("::")
+            fields = dict(kv.split("=", 1) for kv in head.split() if "=" in kv and not kv.startswith("key="))
+            key = head.split("key=", 1)[1].strip() if "key=" in head else ""
+            out.append({"property": fields.get("property"), "key": key, "what": what.strip(), "status": "known"})
+    return out
 
 
 class Check:
@@ -249,6 +260,15 @@ class Check:
         self.known = {f["key"]: f for f in load_known_findings() if f.get("property") == prop and f.get("status") == "known"}
         self.assumptions = []
         self.extra = {}
+        # witnesses of earlier runs are stale once a new run starts
+        d = os.path.join(VERIF, "replay", prop)
+        if os.path.isdir(d) and not os.environ.get("VERIF_KEEP_REPLAY"):
+            for f in os.listdir(d):
+                if f.endswith(".json"):
+                    try:
+                        os.unlink(os.path.join(d, f))
+                    except OSError:
+                        pass
 
     def count(self, name, n=1):
         self.counters[name] = self.counters.get(name, 0) + n
@@ -347,6 +367,16 @@ class Check:
             sys.exit(2)
         print(f"OK property={self.prop} tier={self.tier} seed={self.seed} evaluations={self.evaluations} distinct={len(self.distinct)} inconclusive={sum(self.inconclusive.values())} known={sum(self.known_hits.values())} wall={wall:.1f}s")
         sys.exit(0)
+
+
+def norm(t):
+    """Drop CBOR-encoding details ("indef", "enc", "raw") from Data inside a JSON tree:
+    comparisons by value."""
+    if isinstance(t, dict):
+        return {k: norm(v) for k, v in t.items() if k not in ("indef", "enc", "raw", "useraw")}
+    if isinstance(t, list):
+        return [norm(x) for x in t]
+    return t
 
 
 def h(obj):
